@@ -4,6 +4,7 @@ Runtime monitoring: the real ``from_algmod`` / ``from_gmod`` / factory / ``Usefu
 with seeded hostile inputs; every reported entry is judged against an exact gamete-distribution enumeration
 (``pbmon.oracle.c12_gametes``) written from the property statement.  ``numpy.empty`` is poisoned (NaN fill, an
 admissible behaviour of ``empty``) while library code runs, so entries that the code never writes are observable.
+Factory objects and matrix classes are also used as long-lived objects (several requests with changing arguments).
 """
 import importlib
 import itertools
@@ -21,6 +22,7 @@ CLAUSES = {   # minimum evaluations per run (a quick run reaches three to seven 
     "C12.genetic": 10000, "C12.genic": 1000,
     "C12.structure.symmetry": 500, "C12.structure.zero": 4000, "C12.structure.reorder": 400, "C12.structure.labels": 400,
     "C12.routes": 500, "C12.chunk": 200, "C12.uc": 600, "C12.uc.shape": 80, "C12.history": 1500,
+    "C12.sequence": 800,
 }
 RULE = ("seeded class-based cases: 2-5 parents (inbred for two/three/four-way; arbitrary phased, fully heterozygous, "
         "inbred, duplicated and phase-swapped genotypes for dihybrid), 1-7 loci for full enumeration (8-14 loci with the "
@@ -35,7 +37,14 @@ RULE = ("seeded class-based cases: 2-5 parents (inbred for two/three/four-way; a
         "tuples (sampled per equality pattern when 4^L states make a tuple expensive).  60% of the built matrices are then "
         "used as long-lived objects: 1-3 of the library's own operations (reorder/sort/group/select/delete/remove/lexsort+"
         "reorder/copy/deepcopy/ungroup on the taxa axes, generic with positive and negative axis numbers and axis-specific; "
-        "reorder/select/delete/remove/sort on the trait axes) are applied and every followed entry is re-judged.  A case is non-trivial when the "
+        "reorder/select/delete/remove/sort on the trait axes) are applied and every followed entry is re-judged.  A 'seq' family "
+        "sends 2-4 requests to ONE factory object (every factory class) or one matrix class (all 16), through from_gmod and "
+        "from_algmod, changing between requests one of: nself (alone / with nprogeny), the pgmat (new object or same object "
+        "with genotypes / genetic positions replaced through its setters), the model (new object or u_a setter), ncross and "
+        "nprogeny, mem, the map function object, nothing, nothing after the caller reordered the previous answer in place; "
+        "every answer is judged against the enumeration for its own arguments and earlier answers must stay as they were.  "
+        "Half of the usefulness-criterion problems get a factory object that served another selfing depth before.  "
+        "A case is non-trivial when the "
         "parents are not all identical and some effect is non-zero; distinct = digest of genotypes, effects, layout, "
         "positions, scheme, class, route, nself and mem.")
 ASSUME = [
@@ -56,7 +65,11 @@ ASSUME = [
     "enumeration' and 'zero for identical parents' contradict each other there); they are only counted",
     "trait labels are only observed (counter), the statement does not mention them; taxa labels are part of equivariance",
     "an exception from a constructor is counted as raised (DESIGN 2.1), except in the equivalence clauses routes/chunk/reorder "
-    "where one side raising and the other not is a violation",
+    "where one side raising and the other not is a violation (sequence clause: a later request to a used factory object "
+    "raising while the same request to a fresh factory object returns a matrix)",
+    "sequence clause: the reported values are a function of the arguments of the request (state of the argument objects at "
+    "the time of the request), not of what the same factory object / class was asked before; returning the very same "
+    "matrix object for a repeated request is admissible",
 ]
 TRUSTED = ["numpy.empty replaced by a NaN-filling wrapper while library code runs (admissible behaviour of numpy.empty)"]
 TIMEOUT = {"quick": 900, "thorough": 3 * 3600}
@@ -1130,7 +1143,8 @@ def case_seq(ctx, c):
     nselfs = [0, 1, 2, 3, INF, numpy.int64(1)]
     st = {"h0": h0, "h1": h1, "u": u, "beta": beta, "chrgrp": chrgrp, "genpos": genpos, "H": HaldaneMapFunction(),
           "nself": nselfs[int(g.integers(len(nselfs)))] if genetic else 0, "nmating": int(g.integers(1, 20)), "nprogeny": int(g.integers(1, 80)),
-          "mem": [None, 1, 2, L, 1024, "default"][int(g.integers(0, 6))]}
+          # "default": argument omitted (the genic classes have no default for mem)
+          "mem": [None, 1, 2, L, 1024, "default", "default", "default"][int(g.integers(0, 8 if genetic else 5))]}
     st["pg"], st["mod"] = make_inputs(h0, h1, chrgrp, genpos, u, beta, g, True, gen_umisc(g, nt))
     holder = lib_factory(scheme, kind) if via_factory else None
     hname = "factory object" if via_factory else "matrix class"
@@ -1181,7 +1195,8 @@ def case_seq(ctx, c):
                 elif change == "ncross and nprogeny":
                     st["nmating"] += 1 + int(g.integers(0, 5)); st["nprogeny"] += 1 + int(g.integers(0, 5))
                 elif change == "mem":
-                    st["mem"] = [m for m in (None, 1, 2, 3, 1024) if m != st["mem"]][int(g.integers(0, 4))]
+                    cand = [m for m in (None, 1, 2, 3, 1024) + (("default",) if genetic else ()) if m != st["mem"]]
+                    st["mem"] = cand[int(g.integers(len(cand)))]
                 elif change == "new map function object":
                     st["H"] = HaldaneMapFunction()
                 elif change == "nothing; the earlier result was reordered in place by the caller":
